@@ -101,6 +101,17 @@ def rule_d(ck, F):
     n = ('f', 'len', ('v', 'macroblock_types'))
     ox = mk_mul([('f', 'Rem', n, mbpl), ('c', 16)]); oy = mk_mul([('f', 'Div', n, mbpl), ('c', 16)])
     dmb = ('fld', ('f', 'decode_macroblock', ('v', 'reader'), ('f', 'as_header', ('v', 'next_decoded_picture')), ('v', 'next_running_options')), (('as', 0), 0, ('as', 2)))
+    # the macroblock layer is parsed with this picture's header and this picture's options (the set built from the header just parsed: Annex D
+    # vector codes, ...), not with what the decoder object still holds from before
+    mbc = calls('macroblock::decode_macroblock')
+    if len(mbc) != 1:
+        ck.violation('D', 'D : decode_next_picture : decode_macroblock calls', where_of(b), 'expected one decode_macroblock call in the macroblock loop, found %d' % len(mbc)); return
+    want_mb = list(dmb[1][2:])
+    if mbc[0][2] != want_mb:
+        ck.violation('D', 'D : decode_next_picture : decode_macroblock arguments', where_of(b, mbc[0][0]),
+                     'decode_macroblock is given (%s), expected (%s): the reader, the header of the picture being decoded and the options in force for it' % (
+                         ', '.join(show(x) for x in mbc[0][2]), ', '.join(show(x) for x in want_mb))); return
+    ck.ok('D', 'decode_macroblock(%s)' % ', '.join(show(x) for x in want_mb), where_of(b, mbc[0][0]))
     mbv = [v for v in F.adts['h263_rs::types::Macroblock']['variants'] if v['name'] == 'Coded'][0]
     fidx = {f['name']: i for i, f in enumerate(mbv['fields'])}
     dmb = (dmb[0], dmb[1], (('as', 0), 0, ('as', mbv['idx'])))
